@@ -102,6 +102,29 @@ def sibling_base(prog, fn, tree, s, depth=0):
     return None
 
 
+def fed_back(prog, f, n):
+    """every call of f passes, as the examined node, a loop cursor that takes f's own result in the next round
+    (`while i != EMPTY_REF { i = self.step(i) }`)"""
+    if n.kind != 'param':
+        return False
+    k = n.args[0]
+    callers = [(c, cf) for c, cf in prog.callers(f) if c.kind == 'call' and cf is not f]
+    if not callers:
+        return False
+    for c, cf in callers:
+        if k - 1 >= len(c.args):
+            return False
+        a = strip(c.args[k - 1])
+        loops = cf.body.cfg.loops()
+        if a is None or a.kind != 'phi' or a.extra.get('block') not in loops:
+            return False
+        body = loops[a.extra['block']]
+        steps = [strip(x) for x, p_ in zip(a.args, a.extra['preds']) if p_ in body]
+        if not steps or not all(x is c for x in steps):
+            return False
+    return True
+
+
 def colour_name(prog, fn, v):
     from summaries import val_desc
     d = val_desc(prog, fn, v)
@@ -195,6 +218,16 @@ def run(ctx):
                     for a, p in zip(n.args, n.extra['preds']):
                         if p in loops[h] and isP(a):
                             sites[p] = 'next round of the loop examines the parent'
+                # handed back: a step function that RETURNS the node still carrying the deficit to a caller that feeds it in again
+                if b.locals[0]['ty'] == 'u32' and fed_back(prog, f, n):
+                    for r_, rv_ in b.ret_val.items():
+                        rv0 = strip(rv_)
+                        if rv0 is not None and rv0.kind == 'phi' and rv0.extra.get('block') == r_ and len(rv0.args) == len(rv0.extra.get('preds', ())):
+                            for a_, p_ in zip(rv0.args, rv0.extra['preds']):
+                                if isP(a_):
+                                    sites[p_] = 'returned to the driving loop as the node to examine next'
+                        elif rv0 is not None and isP(rv0):
+                            sites[r_] = 'returned to the driving loop as the node to examine next'
                 # absorb sites: node(p).color := Black under "p is red"
                 for st2 in b.stores:
                     acc2 = prog.accessor_call(strip(st2.root))
